@@ -88,6 +88,7 @@ static SIDE_TABLE: Mutex<Vec<Vec<u8>>> = Mutex::new(Vec::new());
 static SIDE_FIRE: AtomicUsize = AtomicUsize::new(0);
 static SIDE_RESULT: AtomicUsize = AtomicUsize::new(0); // 0 not fired, 1 fired + Ok, 2 fired + Err
 /// op 11: the encoder writes the record's chunks and then returns Err (a record that cannot be rendered to its end)
+static FAIL_AFTER: std::sync::atomic::AtomicBool = std::sync::atomic::AtomicBool::new(false);
 static ENC_FAIL: std::sync::atomic::AtomicBool = std::sync::atomic::AtomicBool::new(false);
 
 #[derive(Debug)]
@@ -131,7 +132,12 @@ impl Roll for SpyRoll {
             anyhow::bail!("scripted roller failure");
         }
         side_fire(2);
-        self.inner.roll(file)
+        let r = self.inner.roll(file);
+        if FAIL_AFTER.load(Ordering::SeqCst) && r.is_ok() {
+            // op 12: the rotation has been done in full; the roller then reports a failure
+            anyhow::bail!("scripted failure after the rotation");
+        }
+        r
     }
 }
 
@@ -588,7 +594,7 @@ pub fn run(case: &Val) -> Val {
     for o in c[4].l() {
         let o = o.l();
         match o[0].n() {
-            0 | 5 | 7 | 10 | 11 => table.push(chunks_of(&o[1])),
+            0 | 5 | 7 | 10 | 11 | 12 => table.push(chunks_of(&o[1])),
             2 => {
                 for th in o[1].l() {
                     for r in th.l() {
@@ -657,6 +663,18 @@ pub fn run(case: &Val) -> Val {
                     None => false,
                 };
                 ctx.fail.store(false, Ordering::SeqCst);
+                next_id += 1;
+                if !ok {
+                    errors += 1;
+                }
+            }
+            12 => {
+                FAIL_AFTER.store(true, Ordering::SeqCst);
+                let ok = match &app {
+                    Some(a) => append_id(a, next_id),
+                    None => false,
+                };
+                FAIL_AFTER.store(false, Ordering::SeqCst);
                 next_id += 1;
                 if !ok {
                     errors += 1;
